@@ -2,7 +2,7 @@
     the repaired setPin of proposed/C13/fix-setpin-gcsize.patch). *)
 From Coq Require Import List NArith ZArith Bool Lia.
 Import ListNotations.
-Require Import Aurora.Consts Aurora.C11.Model Aurora.C13.ProofsCounter Aurora.C13.ProofsHistory Aurora.C13.Witness.
+Require Import Aurora.Consts Aurora.C11.Model Aurora.C13.ProofsCounter Aurora.C13.ProofsHistory Aurora.C13.Witness Aurora.C11.Conc Aurora.C13.Conc.
 Local Open Scope N_scope.
 
 (** the per-run candidate limit the histories of the harness use by default *)
@@ -90,6 +90,28 @@ Proof.
   - exact gc_begin_bound.
 Qed.
 Print Assumptions C13_bounded_after_quiesce_partial.
+
+(** CONCURRENCY (interleaving model Conc.v).  n overlapping request-mode Gets
+    of one cached file; at HEAD the whole of updateGC runs under batchMu (one
+    atomic action).  For ALL schedules: exactly one gc entry for the root,
+    keyed by its access timestamp, GCounter unchanged; gcSize unchanged and
+    equal to the total. *)
+Theorem C13_concurrent_gets_one_entry : forall (t0 c other clock : N) (n : nat) (sched : list nat),
+  0 < t0 -> t0 < clock ->
+  let st := g_run false (g_init t0 c other clock n) sched in
+  g_ent (fst st) = [(g_access (fst st), c)] /\
+  g_size (fst st) = c + other /\ g_sum (g_ent (fst st)) + other = g_size (fst st).
+Proof. exact concurrent_gets_one_entry. Qed.
+Print Assumptions C13_concurrent_gets_one_entry.
+
+(** seeded change C13-3 (gc entry looked up before batchMu is taken): schedule
+    [0;1;0;1] of two Gets — two gc entries with the full GCounter each, gcSize unchanged *)
+Theorem C13_concurrent_gets_seeded_refuted :
+  let st := g_run true (g_init 5 3 4 10 2) [0; 1; 0; 1]%nat in
+  snd st = [GDone; GDone] /\ g_ent (fst st) = [(11, 3); (10, 3)] /\ g_size (fst st) = 7 /\
+  g_sum (g_ent (fst st)) + 4 = 10.
+Proof. exact concurrent_gets_seeded_refuted. Qed.
+Print Assumptions C13_concurrent_gets_seeded_refuted.
 
 (** non-vacuity: a safe history (cache two files chunk by chunk, read, pin a
     file chunk by chunk twice over, unpin, remove, reopen) *)
